@@ -340,12 +340,61 @@ def r19_3(ctx: Ctx, rep: Report, rid: str = "R19.3") -> None:
         rep.violation("Ace.ungroup_ports", "single result", "an entry that needs no splitting is not returned as the same object ([self]): its identifier and note change", where(up))
 
 
+def _flat_map_splice(ctx: Ctx, rep: Report, f: Func, q: str) -> bool:
+    """The splice written as a flat-map: `list(chain.from_iterable(G))` / `[x for g in G for x in g]` with
+    G = (o.ungroup_ports() if isinstance(o, Ace) else [o] for o in self._items): every item contributes its split result
+    or itself, in order.  True when this form was recognised (verdicts emitted)."""
+    from .common import single_env
+
+    senv = single_env(f.node)
+    stores = [n for n in own_nodes(f.node) if isinstance(n, ast.Assign) and any(isinstance(t, ast.Attribute) and src(t.value) == "self" and t.attr in ("items", "_items") for t in n.targets)]
+    if not stores:
+        return False
+    v = stores[-1].value
+    gen = None
+    if isinstance(v, ast.Call) and src(v.func) == "list" and len(v.args) == 1:
+        v = v.args[0]
+    if isinstance(v, ast.Call) and src(v.func).endswith("from_iterable") and len(v.args) == 1:
+        gen = v.args[0]
+    elif isinstance(v, ast.Call) and src(v.func).split(".")[-1] == "chain" and len(v.args) == 1 and isinstance(v.args[0], ast.Starred):
+        gen = v.args[0].value
+    elif isinstance(v, ast.ListComp) and len(v.generators) == 2 and isinstance(v.generators[1].iter, ast.Name) and src(v.generators[1].iter) == src(v.generators[0].target) and src(v.elt) == src(v.generators[1].target) and not v.generators[0].ifs and not v.generators[1].ifs:
+        gen = v.generators[0].iter
+    if isinstance(gen, ast.Name) and gen.id in senv:
+        gen = senv[gen.id]
+    if not isinstance(gen, (ast.GeneratorExp, ast.ListComp)) or len(gen.generators) != 1:
+        return False
+    g = gen.generators[0]
+    var = src(g.target)
+    if src(g.iter) not in ("self._items", "self.items") or g.ifs:
+        rep.violation(q, snippet(gen, 80), "the flat-map does not run over every stored item in order", where(f, gen))
+        return True
+    e = gen.elt
+    ok = False
+    if isinstance(e, ast.IfExp):
+        a, b = e.body, e.orelse
+        split_first = isinstance(a, ast.Call) and isinstance(a.func, ast.Attribute) and a.func.attr == "ungroup_ports" and src(a.func.value) == var
+        keep_other = isinstance(b, (ast.List, ast.Tuple)) and len(b.elts) == 1 and src(b.elts[0]) == var
+        is_ace_test = isinstance(e.test, ast.Call) and src(e.test.func) == "isinstance" and src(e.test.args[0]) == var and "Ace" in src(e.test.args[1])
+        ok = split_first and keep_other and is_ace_test
+    rep.instance()
+    if ok:
+        rep.ok(f"{q}: {snippet(gen, 70)}", "every item contributes its split result or itself, concatenated in item order", where=where(f, gen))
+        rep.instance()
+        rep.ok(f"{q}: {snippet(stores[-1], 60)}", "the spliced list, in the original order", where=where(f, stores[-1]))
+    else:
+        rep.violation(q, snippet(gen, 80), "an item must contribute `<item>.ungroup_ports()` when it is an Ace and `[<item>]` otherwise: an item is lost, duplicated or replaced", where(f, gen))
+    return True
+
+
 def splice_rule(ctx: Ctx, rep: Report, q: str, rid: str = "R19.4") -> None:  # noqa: C901
     rep.rule(rid)
     f = ctx.func(q)
     cfg = ctx.cfg(f)
     loops = [n for n in cfg.live if n.kind == "for" and src(n.ast.iter) in ("self._items", "self.items")]
     rep.instance()
+    if not loops and _flat_map_splice(ctx, rep, f, q):
+        return
     if not loops:
         rep.violation(q, "loop over self._items", "the splice loop vanished", where(f))
         return
